@@ -141,10 +141,32 @@ Proof.
   apply andb_prop in H0. destruct H0 as [H0 _]. apply Nat.eqb_eq in H0. congruence.
 Qed.
 
+Lemma runner_once s t th :
+  tinv1 s t th = true -> closer_body (t_pc th) = true ->
+  once s = ORunning t /\ stage s = stage_of (t_pc th).
+Proof.
+  unfold tinv1. intros H Hb. rewrite Hb in H. cbn in H. apply andb_prop in H. destruct H as [H1 H2].
+  split; [apply is_runner_eq; exact H1|apply Nat.eqb_eq; exact H2].
+Qed.
+
+(* a step of the runner inside doClose: once stays ORunning t, stage := stage_of (new pc) *)
+Ltac runner_tinv I2 Hth Hpc :=
+  let t0 := fresh "t0" in let th0 := fresh "th0" in let Ht0 := fresh "Ht0" in let Hne := fresh "Hne" in
+  intros t0 th0 Ht0; apply updt_cases in Ht0; destruct Ht0 as [[-> ->]|[Hne Ht0]];
+  [ destruct (runner_once _ _ _ (I2 _ _ Hth)) as [Ho Hs]; [rewrite Hpc; reflexivity|];
+    unfold tinv1; asimp; rewrite ?Ho; cbn; rewrite ?Nat.eqb_refl; reflexivity
+  | assert (Hnb : closer_body (t_pc th0) = false)
+      by (eapply (not_runner _ _ _ _ _ (I2 _ _ Hth)); [rewrite Hpc; reflexivity|exact Hne|exact (I2 _ _ Ht0)]);
+    unfold tinv1; asimp; rewrite Hnb; reflexivity ].
+
+Ltac runner_once_goal I2 Hth Hpc :=
+  destruct (runner_once _ _ _ (I2 _ _ Hth)) as [Ho Hs]; [rewrite Hpc; reflexivity|];
+  rewrite ?Ho; split; [lia|]; eexists; split; [apply updt_same|reflexivity].
+
 Lemma inv1_step fx s l s' : Inv1 s -> stepf fx s l = Some s' -> Inv1 s'.
 Proof.
   intros (I1 & I2 & I3) H.
-  step_inv H; asimp; (split; [|split]).
+  step_inv H; unfold Inv1; asimp; (split; [|split]).
   (* tids *)
   all: try (intros t0 th0 Ht0; first
        [ apply updt_cases in Ht0; destruct Ht0 as [[-> ->]|[Hne Ht0]];
@@ -168,4 +190,216 @@ Proof.
          | _ => eauto
          end
        | exact I3]; fail).
+  (* the runner's steps *)
+  all: try (runner_tinv I2 Hth Hpc; fail).
+  all: try (runner_once_goal I2 Hth Hpc; fail).
+  - (* Spawn *)
+    destruct (once s); auto. destruct I3 as (I3a & thr & Hr & Hb). split; [exact I3a|].
+    exists thr. split; [|exact Hb]. rewrite updt_other; [exact Hr|]. specialize (I1 _ _ Hr). lia.
+  - (* COnce wins *)
+    intros t0 th0 Ht0; apply updt_cases in Ht0; destruct Ht0 as [[-> ->]|[Hne Ht0]].
+    + unfold tinv1; asimp. cbn. rewrite Nat.eqb_refl. reflexivity.
+    + pose proof (I2 _ _ Ht0) as T0. unfold tinv1 in *; asimp. rewrite Honce in T0. cbn in T0.
+      destruct (closer_body (t_pc th0)); [discriminate T0|reflexivity].
+  - split; [lia|]. eexists; split; [apply updt_same|reflexivity].
+  - rewrite Honce in *. exact I3.
+  - reflexivity.
+  - destruct (once s); auto. destruct I3 as (I3a & thr & Hr & Hb). split; [exact I3a|].
+    exists thr. split; [|exact Hb]. rewrite updt_other; [exact Hr|]. specialize (I1 _ _ Hr). lia.
+Qed.
+
+Theorem inv1_reach fx r cap s : reach fx r cap s -> Inv1 s.
+Proof. apply invariant_reachable; [apply inv1_init|apply inv1_step]. Qed.
+
+(* ================================================================== *)
+(* G2: expSyncMutex and the expSyncClosed flag                         *)
+
+Definition holds (m : option nat) (t : nat) : bool := match m with Some x => Nat.eqb x t | None => false end.
+Definition in_exp_cs (p : pc) : bool :=
+  match p with CSet | CUnlock | ECheck | EAdd | EUnlock | ERefuse => true | _ => false end.
+Definition is_addunl (p : pc) : bool := match p with EAdd | EUnlock => true | _ => false end.
+
+Definition tinv2 (s : st) (t : nat) (th : thread) : bool :=
+  implb (in_exp_cs (t_pc th)) (holds (exp_mu s) t) && implb (is_addunl (t_pc th)) (negb (exp_closed s)).
+
+Definition Inv2 (s : st) : Prop :=
+  (forall t th, threads s t = Some th -> tinv2 s t th = true) /\
+  (4 <= stage s -> exp_closed s = true) /\
+  (forall t, exp_mu s = Some t -> exists th, threads s t = Some th /\ in_exp_cs (t_pc th) = true).
+
+Lemma inv2_init r cap : Inv2 (init r cap).
+Proof. unfold Inv2, init; cbn. repeat split; intros; try discriminate; lia. Qed.
+
+Lemma holds_eq m t : holds m t = true -> m = Some t.
+Proof. unfold holds. destruct m; [|discriminate]. intro H. apply Nat.eqb_eq in H. congruence. Qed.
+Lemma holds_refl t : holds (Some t) t = true.
+Proof. cbn. apply Nat.eqb_refl. Qed.
+Lemma holds_other t t0 : t0 <> t -> holds (Some t) t0 = false.
+Proof. intro H. cbn. apply Nat.eqb_neq. auto. Qed.
+
+(* while t is inside the critical section nobody else is *)
+Lemma not_in_cs s t t0 th th0 :
+  tinv2 s t th = true -> in_exp_cs (t_pc th) = true -> t0 <> t -> tinv2 s t0 th0 = true ->
+  in_exp_cs (t_pc th0) = false /\ is_addunl (t_pc th0) = false.
+Proof.
+  unfold tinv2. intros H Hc Hne H0. rewrite Hc in H. cbn in H.
+  apply andb_prop in H. destruct H as [H _]. apply holds_eq in H. rewrite H in H0.
+  rewrite (holds_other _ _ Hne) in H0.
+  destruct (t_pc th0); cbn in *; try discriminate H0; auto.
+Qed.
+Lemma not_in_cs_free s t0 th0 :
+  exp_mu s = None -> tinv2 s t0 th0 = true -> in_exp_cs (t_pc th0) = false /\ is_addunl (t_pc th0) = false.
+Proof.
+  unfold tinv2. intros Hn H0. rewrite Hn in H0. destruct (t_pc th0); cbn in *; try discriminate H0; auto.
+Qed.
+
+Lemma inv2_step fx s l s' : Inv1 s -> Inv2 s -> stepf fx s l = Some s' -> Inv2 s'.
+Proof.
+  intros (I1 & I2 & I3) (J1 & J2 & J3) H.
+  step_inv H; unfold Inv2; asimp; (split; [|split]).
+  (* flag vs stage, when the stage does not move *)
+  all: try exact J2.
+  (* holder, when neither the mutex nor the holder's critical-section status changes *)
+  all: try (intros x Hx; destruct (J3 _ Hx) as (thx & Hx1 & Hx2);
+            first
+            [ match goal with
+              | |- exists th, updt _ ?u ?n x = Some th /\ _ =>
+                destruct (Nat.eq_dec x u) as [->|Hn];
+                [ first
+                  [ rewrite Hth in Hx1; inversion Hx1; subst; rewrite Hpc in Hx2;
+                    first [discriminate Hx2 | eexists; split; [apply updt_same|reflexivity]]
+                  | exfalso; specialize (I1 _ _ Hx1); lia ]
+                | rewrite updt_other by assumption; eauto ]
+              end
+            | eauto ]; fail).
+  (* threads, when mutex and flag are untouched *)
+  all: try (intros t0 th0 Ht0; first
+       [ apply updt_cases in Ht0; destruct Ht0 as [[-> ->]|[Hne Ht0]];
+         [ first
+           [ pose proof (J1 _ _ Hth) as Tt; unfold tinv2 in *; asimp; rewrite Hpc in Tt; cbn in Tt |- *;
+             first [exact Tt | reflexivity | (rewrite ?Hec; cbn; rewrite ?andb_true_r; exact Tt)]
+           | unfold tinv2; asimp; destruct k; reflexivity
+           | unfold tinv2; reflexivity ]
+         | exact (J1 _ _ Ht0) ]
+       | exact (J1 _ _ Ht0) ]; fail).
+  (* stage constants *)
+  all: try (intro Hx; lia).
+  all: try (intros _; reflexivity).
+  all: try (intros _; apply J2; destruct (runner_once _ _ _ (I2 _ _ Hth)) as [_ Hs]; [rewrite Hpc; reflexivity|];
+            rewrite Hs, Hpc; cbn; lia).
+  all: try (intro Hx; specialize (J2 Hx); congruence).
+  (* holder after acquire / release *)
+  all: try (intros x Hx; discriminate Hx).
+  all: try (intros x Hx; inversion Hx; subst; eexists; split; [apply updt_same|reflexivity]).
+  (* threads after acquire / release / flag *)
+  all: try (intros t0 th0 Ht0; apply updt_cases in Ht0; destruct Ht0 as [[-> ->]|[Hne Ht0]];
+    [ pose proof (J1 _ _ Hth) as Tt; unfold tinv2 in *; asimp; rewrite Hpc in Tt; cbn in Tt |- *;
+      rewrite ?Nat.eqb_refl, ?Hec; cbn; try reflexivity;
+      try (apply andb_prop in Tt; destruct Tt as [Tt _]; rewrite ?Tt; reflexivity)
+    | first [ destruct (not_in_cs_free s t0 th0 Hmu (J1 _ _ Ht0)) as [N1 N2]
+            | assert (Hcs : in_exp_cs (t_pc th) = true) by (rewrite Hpc; reflexivity);
+              destruct (not_in_cs s t t0 th th0 (J1 _ _ Hth) Hcs Hne (J1 _ _ Ht0)) as [N1 N2] ];
+      unfold tinv2; asimp; rewrite N1, N2; reflexivity ]; fail).
+Qed.
+
+Theorem inv2_reach fx r cap s : reach fx r cap s -> Inv2 s.
+Proof.
+  apply (invariant_reachable2 (stepf fx) Inv1 Inv2).
+  - apply inv1_reach.
+  - apply inv2_init.
+  - intros; eapply inv2_step; eassumption.
+Qed.
+
+(* ================================================================== *)
+(* G3: the waits of doClose, the watcher, the core flags, late calls   *)
+
+Definition late_ok (hr : bool) (k : kind) (p : pc) : bool :=
+  match k with
+  | KExp _ _ => match p with ELock | ECheck | ERefuse | Fin RShutdown => true | _ => false end
+  | KAnn _ => match p with NCheck => true | Fin RErrClosed => hr | Fin RNil => negb hr | _ => false end
+  | KClose => match p with COnce | Fin RNil => true | _ => false end
+  | KAsync _ => false
+  end.
+
+Definition tinv3 (s : st) (t : nat) (th : thread) : bool :=
+  implb (6 <=? stage s) (negb (exp_active th)) &&
+  implb (9 <=? stage s) (negb (async_active th)) &&
+  implb (t_late th) (close_returned s && late_ok (has_recv s) (t_kind th) (t_pc th)).
+
+Definition w_exiting (p : wpc) : bool := match p with WCancel | WCloseDone | WEnd => true | _ => false end.
+
+Definition Inv3 (fx : bool) (s : st) : Prop :=
+  (forall t th, threads s t = Some th -> tinv3 s t th = true) /\
+  (7 <= stage s -> has_recv s = true -> recv_closed s = true) /\
+  (8 <= stage s -> has_recv s = true -> watch_done s = true) /\
+  (watch_done s = true <-> w_pc s = WEnd) /\
+  (w_pc s = WCloseDone \/ w_pc s = WEnd -> ctx_cancelled s = true) /\
+  (w_exiting (w_pc s) = true -> recv_closed s = true) /\
+  (closing (co s) = true <-> 2 <= stage s) /\
+  (in_closed (co s) = true <-> 10 <= stage s) /\
+  p_env (co s) = false /\
+  (fx = true -> 11 <= stage s -> d_pc (co s) = DDone).
+
+Lemma inv3_init fx r cap : Inv3 fx (init r cap).
+Proof.
+  unfold Inv3, init; cbn. repeat split; intros; try discriminate; try lia.
+  destruct H; discriminate.
+Qed.
+
+Lemma ddone_stable c lb c' : d_pc c = DDone -> cstep c lb = Some c' -> d_pc c' = DDone.
+Proof.
+  intros Hd H. destruct lb as [e| | | |l|l|l|l|]; cbn [cstep] in H; rewrite ?Hd in H.
+  - destruct (in_closed c); [|destruct (in_ev c)]; inv_some; auto.
+  - destruct (in_closed c); inv_some; auto.
+  - destruct (closing c); inv_some; auto.
+  - inv_some. auto.
+  - discriminate.
+  - destruct (lst c l); [|discriminate]. destruct (l_reg l0 || l_in_closed l0 || negb (closing c)); inv_some; auto.
+  - discriminate.
+  - destruct (lst c l); [|discriminate]. destruct (l_q l0); [destruct (l_in_closed l0 && negb (l_out_closed l0))|]; inv_some; auto.
+  - discriminate.
+Qed.
+
+Lemma label_ok_14 fx lb : C15_Shutdown.core_label_ok fx lb = true -> C14_Events.core_label_ok lb = true.
+Proof. destruct lb; cbn; auto. Qed.
+
+Lemma none_active_spec s f :
+  none_active s f = true -> forall t th, threads s t = Some th -> t < next_tid s -> f th = false.
+Proof.
+  unfold none_active. intros H t th Ht Hlt. rewrite forallb_forall in H.
+  specialize (H t). rewrite Ht in H. apply negb_true_iff. apply H. apply in_seq. lia.
+Qed.
+
+Ltac split10 := split; [|split; [|split; [|split; [|split; [|split; [|split; [|split; [|split]]]]]]]].
+
+Ltac th3_self K1 Hth Hpc :=
+  let Tt := fresh "Tt" in
+  pose proof (K1 _ _ Hth) as Tt;
+  unfold tinv3, exp_active, async_active, late_ok, close_returned in *; asimp; rewrite Hpc in Tt;
+  match type of Hth with
+  | threads ?s _ = Some ?th =>
+    destruct (6 <=? stage s); destruct (9 <=? stage s); destruct (t_late th);
+    destruct (once s); destruct (t_kind th); destruct (has_recv s);
+    cbn in *; try reflexivity; try discriminate
+  end.
+
+Lemma inv3_step fx s l s' : Inv1 s -> Inv2 s -> Inv3 fx s -> stepf fx s l = Some s' -> Inv3 fx s'.
+Proof.
+  intros (I1 & I2 & I3) (J1 & J2 & J3) (K1 & K2 & K3 & K4 & K5 & K6 & K7 & K8 & K9 & K10) H.
+  step_inv H; unfold Inv3; asimp; split10.
+  all: try assumption.
+  (* threads, for steps that leave stage / once / has_recv alone *)
+  all: try (intros t0 th0 Ht0; first
+       [ apply updt_cases in Ht0; destruct Ht0 as [[-> ->]|[Hne Ht0]];
+         [ th3_self K1 Hth Hpc | exact (K1 _ _ Ht0) ]
+       | exact (K1 _ _ Ht0) ]; fail).
+  (* runner steps: the old stage is known *)
+  all: try (destruct (runner_once _ _ _ (I2 _ _ Hth)) as [Ho Hs]; [rewrite Hpc; reflexivity|];
+            rewrite Hpc in Hs; cbn [stage_of] in Hs).
+  (* arithmetic side conditions *)
+  all: try (intros; first
+       [ lia | congruence | reflexivity
+       | apply K2; [lia|assumption] | apply K3; [lia|assumption]
+       | apply K10; [assumption|lia] ]; fail).
+  all: try (split; intro Hx; first [lia | apply K7; lia | (apply K7 in Hx; lia) | apply K8; lia | (apply K8 in Hx; lia)]; fail).
 Admitted.
